@@ -163,7 +163,8 @@ CLAIMS: dict[str, tuple[str, str, str, str]] = {
         "C15.tree_roundtrip it flattens back); loop_segs (engine: the tokens a block loop adds are a concatenation "
         "of rule segments at the loop's level, under the segment contract K5) with K5 PROVED for code, fence, hr, "
         "heading, paragraph (Props/C02b.lean), giving the unconditional mini_wellformed for that sub-parser (levelled "
-        "from 0, balanced, tree builds; model tied by `miniblock`). MISSING: that delimiter matching is laminar "
+        "from 0, balanced, tree builds; model tied by `miniblock`), and for the container rule blockquote (Props/C02c.lean) "
+        "giving q_wellformed with block quotes nested to any depth (tie `qblock`). MISSING: that delimiter matching is laminar "
         "(em/strong/s pairs never cross) — processDelimiters is not modelled; and K5 for the remaining block/inline "
         "rules (monitored). Both are decided by the oracle: the property's predicate on every stream, recursively, "
         "incl. a bounded-exhaustive delimiter sweep. Known finding K-C02-1 (parseInline wrapper not flagged block, "
@@ -232,7 +233,8 @@ CLAIMS: dict[str, tuple[str, str, str, str]] = {
         "main or terminator: never dispatched; after any history by C11), facade_switches (tokenizer and post-processor of a "
         "name are switched together in all four rulers), routes/setOpt_other/dictGet_dictSet (the three option routes are one "
         "assignment on one backing dict), definition_renders_empty; mini_provenance / mini_no_hr / mini_no_code / mini_zero "
-        "(Props/C10b: in the modelled sub-parser every token kind comes from an enabled rule, under all 16 rule subsets). "
+        "(Props/C10b: in the modelled sub-parser every token kind comes from an enabled rule, under all 16 rule subsets; "
+        "Props/C10c q_provenance/q_no_hr: the same with block quotes nested to any depth). "
         "MISSING: provenance for the other rules and the "
         "conservative-extension clause need per-rule models: decided by the oracle (token kinds under random rule subsets; "
         "table/strikethrough on vs off on trigger-free inputs; definition options erase to the plain parse, env and HTML equal; "
